@@ -17,6 +17,18 @@ NA = [
 TECH = "deterministic simulation: seeded search over plans (scheduled episode events + injected faults) with {oracle}; minimised replay files"
 
 CHECKS = {
+    "C01": dict(
+        oracle="per-operation refinement of step/reset against RefMDP∘RefStack; counter-restart history oracle; 256-reset freshness count",
+        text="Seeded operation sequences on wrapper-stack programs over drawn finite MDPs; every returned (state, observation, reward, flags) is refined against a reference interpreter from the input state, incl. fresh state with restarted clocks/counters on done. Exploration.",
+        note="Trusted: SimMDP tables; successor of a done step matched existentially; built-in environments are covered by the rollout scenario (C02) only for space membership.",
+        ref="5 (C01)",
+    ),
+    "C13": dict(
+        oracle="twin refinement of wrapped vs inner environment through RefStack (declared change only), TimeLimit history oracle, construction/space/pass-through checks, adapter peer-history equality",
+        text="All 11 documented wrappers in random stacks (depth 0..4) over drawn finite MDPs: functional components and step/reset compared with the inner environment under the declared change only; exact TimeLimit; every documented wrapper constructible. Exploration.",
+        note="Rescale wrappers only over bounded boxes with dyadic bounds; adapters are checked by the peers scenario.",
+        ref="5 (C13)",
+    ),
     "C03": dict(
         oracle="RefGAE history oracle over rollouts recorded by the real on-policy pipeline, per node",
         text="Seeded simulation of the real PPO/A2C/REINFORCE reset+iteration on drawn finite MDPs with every done pattern scheduled (termination, time-out, both, first/last step, consecutive); the GAE definition of the statement is re-evaluated in float64 per node on what the pipeline recorded. Exploration: clean batches are evidence, not proof; the all-real-sequences identity is decided only on simulated histories.",
